@@ -70,6 +70,19 @@ def swap2_unit(elem, specs, std=17, steal=True):
     return Unit(name[:120], '\n'.join(lines) + '\n', std=std)
 
 
+def adl_swap_unit(elem, pairs, std=17):
+    """pairs: list of ((flavour, n, st, alloc), (flavour, n', st, alloc)) sharing one VectorImpl base: `swap(a, b)` found by ADL is the
+    free function template over VectorImpl, which forwards to swap2."""
+    E = ELEMS[elem]
+    lines = ['#include "drv_vector.hpp"', 'using E = %s;' % E]
+    for i, (a, b) in enumerate(pairs):
+        lines.append('using A%d = %s;' % (i, vec_type(elem, *a)))
+        lines.append('using B%d = %s;' % (i, vec_type(elem, *b)))
+        lines.append('template void drv::use_adl_swap<A%d, B%d>(A%d&, B%d&);' % (i, i, i, i))
+        lines.append('template void drv::use_adl_swap<B%d, A%d>(B%d&, A%d&);' % (i, i, i, i))
+    return Unit('adlswap-%s' % elem, '\n'.join(lines) + '\n', std=std)
+
+
 CMPS = {'less': 'std::less<%s >', 'greater': 'std::greater<%s >', 'coarse': 'arch::Coarse<%s >',
         'stateful': 'arch::Stateful<%s >', 'transparent': 'arch::Transparent<%s >'}
 
@@ -157,6 +170,10 @@ def memalg_unit(elem, std=17):
         lines.append('template void drv::use_memory_src<E, %s >(%s, %s, E*, int);' % (I, I, I))
     lines.append('template void drv::use_memory_src<E, std::move_iterator<E*> >(std::move_iterator<E*>, std::move_iterator<E*>, E*, int);')
     lines.append('template void drv::use_memory_dst<E, arch::MutFwdIt<E> >(E*, E*, arch::MutFwdIt<E>, int);')
+    if elem in COPYABLE:
+        # random access but not contiguous: a byte copy of the whole range is not a copy of the range
+        lines.append('template void drv::use_memory_src<E, std::reverse_iterator<const E*> >(std::reverse_iterator<const E*>, std::reverse_iterator<const E*>, E*, int);')
+        lines.append('template void drv::use_memory_rr<E>(std::reverse_iterator<const E*>, std::reverse_iterator<const E*>, std::reverse_iterator<E*>, int);')
     return Unit('mem-%s' % elem, '\n'.join(lines) + '\n', std=std)
 
 
